@@ -19,6 +19,7 @@ RULE = ("match: first array = distinct values of one dtype (i1..u8 incl. type li
         "unique/rem_dup: tie-heavy arrays whose first element is often not the minimum, flags with ties. "
         "Non-trivial: match with some-but-not-all of a2 matching and (a repeat in a2 or a probe outside "
         "a1's range); de-duplication with >=2 distinct values and >=1 tie. Distinct = distinct case JSON.")
+RULE += (" " + 'Also: presorted= spelt as bool / int / numpy.bool_; match_wide kind large-first (first array of 10^2..2*10^4 distinct values, second array of 3..13 elements with repeats); the index arrays returned by match / unique / rem_dup are compared with their copies after a further call.')
 ASSUMPTIONS = [
     "floats are finite (NaN never equals itself, the statement speaks of equal elements)",
     "strings contain no NUL and no white space (numpy fixed-width comparison semantics are not esutil's)",
